@@ -2,6 +2,7 @@
 from .common import *
 from .pxcommon import *
 from . import c08
+from .geomgen import *
 
 ID = "C04"
 PROPS_FILES = ["Props/C04"]
@@ -47,12 +48,34 @@ def gen_cases(rng, tier):
         row = [rand_premul(rng) + (255,) for _ in range(w)]
         x0 = rng.randint(0, w - 1); ln = rng.randint(1, w - x0)
         cases.append(px_case(5, rng.randrange(29), rng.random() < 0.3, False, rand_color(rng), True, x0, ln, row, [mw, mh]))
+    # whole draws: thin strokes of curves whose control points straddle the right / bottom border; a write past
+    # the end of a row lands in the first pixels of the following row, far from the path
+    for i in range(400 if tier == "quick" else 6000):
+        w, h = rng.choice([(12, 12), (24, 17), (40, 40), (9, 30)])
+        aa = rng.random() < 0.5
+        width = 0 if (not aa or rng.random() < 0.5) else rng.choice([300, 900])
+        def P(inside):
+            if inside:
+                return (rng.uniform(2, w - 2), rng.uniform(2, h - 2))
+            return (rng.choice([w - 1, w + rng.uniform(-1, 6), rng.uniform(0, w)]), rng.choice([h - 1, h + rng.uniform(-1, 6), rng.uniform(0, h)]))
+        p0 = P(True)
+        ops = [0, f2b(p0[0]), f2b(p0[1])]
+        for _ in range(rng.randint(1, 3)):
+            k = rng.choice([1, 2, 3, 3])
+            pts = [P(rng.random() < 0.7) for _ in range(k - 1)] + [P(rng.random() < 0.4)]
+            ops += [k] + [f2b(round(c * 16) / 16) for p in pts for c in p]
+        cases.append(("hair_px", [rng.choice([0, 1, 2]), int(aa), width, w, h, 0] + list(IDENT) + ops))
     return cases
 
 
 def oracle(suite, args, out):
     if out.startswith(("PANIC", "CRASH", "HANG")):
         return "implementation did not return: " + out[:200]
+    if suite == "hair_px":
+        o = ints(out)
+        if len(o) >= 7 and o[1] > 0:
+            return "a thin stroke changed %d pixels far from the path (first (%d,%d)): bytes outside the footprint" % (o[1], o[3], o[4])
+        return None
     c = decode(args)
     if out.strip() == "-1":
         return None
@@ -69,10 +92,16 @@ def oracle(suite, args, out):
     return None
 
 
-relation = c08.relation
+def relation(suite, args, mo, io):
+    if suite == "hair_px":
+        return mo.strip() == "-9"
+    return c08.relation(suite, args, mo, io)
 
 
 def nontrivial_tag(suite, args, out):
+    if suite == "hair_px":
+        o = out.split()
+        return "stroke" if len(o) >= 3 and o[0].isdigit() and int(o[0]) > 0 else None
     c = decode(args)
     if out.strip() in ("-1", "-9") or c["len"] >= c["w"]:
         return None
